@@ -83,6 +83,37 @@ fn main() {
                 println!("{}", out);
             }
         }
+        Some("parsevalue") => {
+            // C09: ParsedValue::new (+ reduce) on every string of stdin (one JSON string per line); panics are caught
+            use leptos_i18n_parser::parse_locales::{parsed_value::ParsedValue, ForeignKeysPaths};
+            use leptos_i18n_parser::utils::{Key, KeyPath};
+            use std::io::BufRead;
+            std::panic::set_hook(Box::new(|_| {}));
+            let mut n = 0usize;
+            let mut ok = 0usize;
+            let mut err = 0usize;
+            for line in std::io::stdin().lock().lines() {
+                let line = line.unwrap();
+                let Ok(value) = serde_json::from_str::<String>(&line) else { continue };
+                n += 1;
+                let v = value.clone();
+                let r = std::panic::catch_unwind(move || {
+                    let fk = ForeignKeysPaths::new();
+                    let kp = KeyPath::new(None);
+                    let loc = Key::new("en").unwrap();
+                    ParsedValue::new(&v, &kp, &loc, &fk).map(|_| ())
+                });
+                match r {
+                    Ok(Ok(())) => ok += 1,
+                    Ok(Err(_)) => err += 1,
+                    Err(e) => {
+                        let msg = e.downcast_ref::<String>().cloned().or_else(|| e.downcast_ref::<&str>().map(|s| s.to_string())).unwrap_or_default();
+                        println!("{}", serde_json::json!({"panic": value, "message": msg}));
+                    }
+                }
+            }
+            println!("{}", serde_json::json!({"done": n, "ok": ok, "err": err}));
+        }
         Some("cfg") => {
             // native replay for C19: the real ConfigFile::new on a directory holding a Cargo.toml
             use leptos_i18n_parser::parse_locales::cfg_file::ConfigFile;
